@@ -357,7 +357,7 @@ def random_ic_scenario(rng, nmax=8, allow_sat=True):
         extra = [w.upper() if w.upper() not in vocab else w.title() for w in rng.sample(sorted(vocab), 1)]
         extra = [x for x in extra if x not in vocab]
     g['words'] = vocab
-    toks = list(vocab) + extra + ['unknown1', 'unknown2', 'Unknown1']
+    toks = list(vocab) + extra + ['unknown1', 'unknown2', 'Unknown1', '', ' ']
     corpus = [rng.choice(toks) for _ in range(rng.randint(0, 12))]
     smoothing = rng.choice([(1, 1), (1, 1), (1, 2), (2, 1), (0, 1), (1, 4)])
     mode = rng.choice(['corpus', 'corpus', 'arbitrary'])
